@@ -162,7 +162,8 @@ CHECKS = {
         "free-buffer read, or success with the free-buffer read refused by a status) for versions 8 and 13, judged feed by feed against a two-counter model: a feed raises exactly when "
         "it is a failure and at least the 5th consecutive one, any success clears the run; plus Hypothesis sequences of up to "
         "400 feeds crossing the 180-feed read-and-clear period (and with the period patched to 3 and 5) for versions "
-        "4/7/8/13/14/15. The simulator checks the commands seen per feed (nop on v4; readCounters or, on period multiples, "
+        "4/7/8/13/14/15, optionally with other activity (incoming message, confirmation, status event, another command) between "
+        "feeds, which must not touch the count. The simulator checks the commands seen per feed (nop on v4; readCounters or, on period multiples, "
         "readAndClearCounters, followed by getValue(FREE_BUFFERS) after a successful read).",
         "ControllerApplication built with the zigpy.util.Requests shim; feeds are driven by calling _watchdog_feed() directly.",
         "exhaustive outcome-sequence enumeration to a length bound + Hypothesis long histories against a counter model",
@@ -188,7 +189,8 @@ CHECKS = {
         "stopped-not-closed state), callers on the owner loop, the main-thread loop and a second loop thread. Hypothesis "
         "generates scripts of 1-4 bursts of 1-200 concurrent calls over eight method kinds (coroutines returning, raising an "
         "Exception, a non-Exception BaseException, CancelledError; plain methods; a non-callable) and three owner-loop states; "
-        "a stopped-not-closed owner loop is run again and must then execute every plain call queued meanwhile. Every "
+        "a stopped-not-closed owner loop is run again and must then execute every plain call queued meanwhile; slow coroutine "
+        "calls in flight when the owner's thread is force-stopped must all end for their callers once the loop is closed. Every "
         "wrapped body records its thread: it must be the owner's; coroutine results/exceptions must reach the caller unchanged "
         "and resume on the caller's loop; cross-thread plain calls return None at once, run exactly once in per-caller FIFO "
         "order, non-None returns and raised exceptions surface in the owner loop's exception handler; owner-loop calls run "
